@@ -16,7 +16,8 @@ FieldSeqs == UNION {[1..n -> Keys] : n \in 0..MaxFields}
 \* (a server may well send `file: a` twice); otherwise every position has its own value, which tells WHICH match was taken
 Frames0 == {[fields |-> [i \in 1..Len(ks) |-> <<ks[i], Val(IF dup THEN (i + 1) \div 2 ELSE i)>>], bin |-> b] :
               ks \in FieldSeqs, b \in {None, Some(PAY)}, dup \in BOOLEAN}
-IterMoves == {<<"f","f","f","f","f">>, <<"b","b","b","b","b">>, <<"f","b","f","b","f">>, <<"b","f","f","b","b">>, <<"f","f","b","b","f">>}
+IterMoves == {<<"f","f","f","f","f">>, <<"b","b","b","b","b">>, <<"f","b","f","b","f">>, <<"b","f","f","b","b">>, <<"f","f","b","b","f">>,
+              <<"l">>, <<"f","l">>, <<"n1","b","l">>, <<"n2","f">>}      \* positional access (nth) and last(), which consumes the iterator
 Ops == {[op |-> o, k |-> k, moves |-> <<>>] : o \in {"find", "get"}, k \in Keys}
        \cup {[op |-> o, k |-> <<>>, moves |-> <<>>] : o \in {"take_binary", "fields_len", "is_empty", "has_binary", "binary"}}
        \cup {[op |-> "iter", k |-> <<>>, moves |-> m] : m \in IterMoves}
